@@ -36,9 +36,10 @@ type (
 		Args []SExpr
 	}
 	SQuant struct {
-		Forall bool
-		Vars   []SParam
-		Body   SExpr
+		Forall   bool
+		Vars     []SParam
+		Body     SExpr
+		Triggers []SExpr // optional explicit instantiation patterns: forall x T {f(x), g(x)} :: body
 	}
 	SIs struct {
 		X  SExpr
@@ -269,6 +270,7 @@ func (ps *sparser) expr(minPrec int) SExpr {
 func (ps *sparser) quant() SExpr {
 	t := ps.next()
 	var vars []SParam
+	var triggers []SExpr
 	for {
 		n := ps.next()
 		if n.k != "id" {
@@ -285,6 +287,16 @@ func (ps *sparser) quant() SExpr {
 		for _, nm := range names {
 			vars = append(vars, SParam{nm, ty})
 		}
+		if ps.isOp("{") {
+			ps.next()
+			for !ps.isOp("}") {
+				triggers = append(triggers, ps.expr(2))
+				if ps.isOp(",") {
+					ps.next()
+				}
+			}
+			ps.next()
+		}
 		if ps.isOp("::") {
 			ps.next()
 			break
@@ -296,7 +308,7 @@ func (ps *sparser) quant() SExpr {
 		ps.fail("expected :: in quantifier")
 	}
 	body := ps.expr(0)
-	return &SQuant{t.s == "forall", vars, body}
+	return &SQuant{t.s == "forall", vars, body, triggers}
 }
 
 func (ps *sparser) typ() *SType {
